@@ -106,7 +106,12 @@ func genVal(r *gen.Rand, comp int, allowEmpty bool) val {
 		}
 		return val{s, clEscape}
 	case vFileName:
-		return val{trimWS(mix(r, " ;,=()'&+-_.~@", 1, 10)), clEscape}
+		// bytes a Content-Disposition parameter has to quote or escape (quote and backslash
+		// included) and HTAB. Other control characters (0x01, 0x7f) are NOT generated: the client
+		// writes them raw (mime/multipart has no escape for them) and Go's MIME header reader on
+		// the server rejects the whole form ("malformed MIME header line", fiber answers 400) -
+		// the unchanged tree does not carry them, and no escaping convention says how it should.
+		return val{trimWS(mix(r, " ;,=()'&+-_.~@\"\\\t%:*?<>|", 1, 10)), clEscape}
 	}
 	return val{"v", clPlain}
 }
